@@ -78,9 +78,9 @@ class CVRPTW(Adapter):
             plan = [(3, [(0, 0), (1, 2)], [(0, 0, 0), (2, 0, 1)], [((1, 1, 2), 2), ((1, 2, 1), 4)], 7)]
         else:
             plan = [(3, [(0, 0), (1, 2), (2, 1)], [(0, 0, 0), (2, 0, 1), (1, 3, 0)],
-                     [((1, 1, 2), 2), ((1, 2, 1), 4), ((2, 1, 1), 3)], 15),
+                     [((1, 1, 2), 2), ((1, 2, 1), 4), ((2, 1, 1), 3)], 12),
                     (4, [(0, 0), (1, 1), (3, 2)], [(0, 0, 0, 0), (1, 0, 2, 1)],
-                     [((1, 1, 2, 1), 3), ((2, 1, 1, 2), 4)], 8)]
+                     [((1, 1, 2, 1), 3), ((2, 1, 1, 2), 4)], 6)]
         for (N, tmpl, durs, loads, per) in plan:
             nopt = 5
             allc = list(itertools.product(range(nopt), repeat=N))
